@@ -235,6 +235,24 @@ def run_check(prop, tier, seed, replay=None):
             else:
                 proof_ok = False
                 proof_problem = proof_problem or "model driver crashed: %r" % (c,)
+        # the same operations through a build of the harness with another profile
+        # (C03: overflow checks off); any difference in observable behaviour is a violation
+        for prof in getattr(prop, "extra_profiles", []):
+            hb2, log2 = C.build_harness(prof)
+            if hb2 is None:
+                proof_ok = False
+                proof_problem = proof_problem or ("harness does not build with profile %s: %s" % (prof, log2[-800:]))
+                continue
+            impl2 = C.run_impl_only(hb2, ops, pid + prof)
+            evaluations += len(impl2)
+            for op, a, b in zip(ops, impl, impl2):
+                if a != b:
+                    violations.append(Violation("relation", op, [a[:300], b[:300]], None,
+                                                "behaviour differs between the overflow-checked build and the %s build" % prof))
+            for v in prop.relation(ops, impl2):
+                v.detail += " (%s build)" % prof
+                violations.append(v)
+            notes.append("profile %s: %d operations re-evaluated" % (prof, len(impl2)))
         # in-process sweeps (relation at scale, no model involved)
         if not replay:
             for args in prop.sweeps(tier):
